@@ -465,3 +465,85 @@ Example C01_cut_rename_example :
     In {| ev_cls := DirMoved; ev_src := sub pR 97; ev_dest := sub pR 98; ev_synth := false |} (p_out sc) /\
     k_queue (p_k sc) = [] /\ Cover (cfgx true true) (w_fs (p_world sc)) (p_k sc) (p_r sc).
 Proof. exact cut_rename_example. Qed.
+
+
+(* ================================================================== directory move-outs back to back *)
+(* ops_x12 = ops_x1 where the operation right after a directory move-out may be ANOTHER directory move-out (see
+   C02_out_after_out): the events of the second move-out are those of the same move-out from the synchronised state in which
+   the first directory is already forgotten (C02_pending_transfer), so the replay follows. *)
+Theorem C01_replay_step_x2 : forall C full, c_faults C = [] -> c_fix_moveout C = true -> c_mask C = WATCHDOG_ALL ->
+  forall w k r hot o w' t, GS2 C w k r hot -> step_ok12 C w hot o -> apply_op w o = Some w' ->
+  TInv (c_recursive C) (c_root C) t w ->
+  let k1 := kernel_op k (w_fs w) o in
+  exists r' k' raws, read_batch C (w_fs w') (r, drainq k1, []) (k_queue k1) = Done (r', k', raws) /\
+    GS2 C w' k' r' (is_dir_out C w o) /\ Forall (rsafe C) raws /\
+    TInv (c_recursive C) (c_root C) (replay (c_recursive C) (c_root C) t (delivered C full w' raws)) w'.
+Proof. exact gs2_replay_step. Qed.
+Print Assumptions C01_replay_step_x2.
+
+Theorem C01_from_start_x2_partial : forall C full, c_faults C = [] -> c_fix_moveout C = true -> c_mask C = WATCHDOG_ALL ->
+  forall ops w, wf_fs w -> fisdir (c_root C) (w_fs w) = true -> ops_x12 C w None ops ->
+  exists r0 k0 w' k' r' out, construct C kinit (w_fs w) = Some (r0, k0) /\
+    drun C full w k0 r0 ops [] = Some (w', k', r', out) /\
+    forall x, alookup beqb x (replay (c_recursive C) (c_root C) (tree_of (c_recursive C) (c_root C) w) out)
+            = alookup beqb x (tree_of (c_recursive C) (c_root C) w').
+Proof. exact replay_from_start_x2. Qed.
+Print Assumptions C01_from_start_x2_partial.
+
+Theorem C01_pipeline_from_start_x2_partial : forall P ops w s0, let C := pc_reader P in
+  c_faults C = [] -> c_fix_moveout C = true -> c_mask C = WATCHDOG_ALL -> pc_filter P = None -> wf_fs w ->
+  fisdir (c_root C) (w_fs w) = true -> pinit P w = Some s0 -> ops_x12 C w None ops ->
+  exists h s' obs hot', block_hist_x P s0 ops h /\ prun P s0 h [] = Done (s', obs) /\ PSx2 P s' hot' /\
+    forall x, alookup beqb x (replay (c_recursive C) (c_root C) (tree_of (c_recursive C) (c_root C) w) (p_out s'))
+            = alookup beqb x (tree_of (c_recursive C) (c_root C) (p_world s')).
+Proof. exact replay_pipeline_from_start_x2. Qed.
+Print Assumptions C01_pipeline_from_start_x2_partial.
+
+(* mkdir R/a; mkdir R/b; mv R/a O/x; mv R/b O/y; mkdir R/a; mv R/a R/b *)
+Definition two_out_ops1 : list op :=
+  [Mkdir (sub pR 97); Mkdir (sub pR 98); Rename (sub pR 97) (sub pO 120); Rename (sub pR 98) (sub pO 121);
+   Mkdir (sub pR 97); Rename (sub pR 97) (sub pR 98)].
+
+Example C01_two_out_ops_x12 : ops_x12 (cfgo true) w0 None two_out_ops1.
+Proof.
+  assert (GR : gpath pR) by (split; [discriminate | reflexivity]).
+  assert (GO : gpath pO) by (split; [discriminate | reflexivity]).
+  assert (Na : forall n, valid_name [n] = true -> npath (sub pR n)) by (intros; now apply npath_sub).
+  assert (No : forall n, valid_name [n] = true -> npath (sub pO n)) by (intros; now apply npath_sub).
+  assert (NS : forall p, ~ scope (cfgo true) (sub pO p)) by (intros p [H|H]; vm_compute in H; discriminate).
+  assert (X2 : forall w o w' ops hot, apply_op w o = Some w' -> step_ok12 (cfgo true) w hot o ->
+                 ops_x12 (cfgo true) w' (is_dir_out (cfgo true) w o) ops -> ops_x12 (cfgo true) w hot (o :: ops)).
+  { intros w o w' ops hot Ha Hs Hc. cbn [ops_x12]. rewrite Ha. now split. }
+  unfold two_out_ops1.
+  eapply X2; [vm_compute; reflexivity | apply c1_op; left; split; [apply co_mkdir; now apply Na | exact I] |]. vm_compute is_dir_out.
+  eapply X2; [vm_compute; reflexivity | apply c1_op; left; split; [apply co_mkdir; now apply Na | exact I] |]. vm_compute is_dir_out.
+  eapply X2; [vm_compute; reflexivity | |].
+  { eapply c1_out; try (now apply Na); try (now apply No); try reflexivity; try (vm_compute; reflexivity);
+      try (right; vm_compute; reflexivity); try (vm_compute; discriminate). apply NS. }
+  vm_compute is_dir_out.
+  eapply X2; [vm_compute; reflexivity | |].
+  { split; [|split].
+    - eapply c1_out; try (now apply Na); try (now apply No); try reflexivity; try (vm_compute; reflexivity);
+        try (right; vm_compute; reflexivity); try (vm_compute; discriminate). apply NS.
+    - exists pR. split; [now left|]. split; [now left | reflexivity].
+    - intros d [<-|[<-|[<-|[]]]]; vm_compute; reflexivity. }
+  vm_compute is_dir_out.
+  eapply X2; [vm_compute; reflexivity | |].
+  { split; [apply c1_op; left; split; [apply co_mkdir; now apply Na | exact I]|]. split.
+    - exists pR. split; [now left|]. split; [now left | reflexivity].
+    - intros d [<-|[]]. vm_compute. reflexivity. }
+  vm_compute is_dir_out.
+  eapply X2; [vm_compute; reflexivity | |].
+  { apply c1_op. left. split; [|intros _; split; [right; vm_compute; reflexivity | split; [reflexivity | vm_compute; reflexivity]]].
+    eapply co_rename_dir; try (now apply Na); try reflexivity; try (vm_compute; reflexivity);
+      try (right; vm_compute; reflexivity); try (vm_compute; discriminate). }
+  exact I.
+Qed.
+
+Example C01_two_out_instance : forall full,
+  exists r0 k0 w' k' r' out, construct (cfgo true) kinit (w_fs w0) = Some (r0, k0) /\
+    drun (cfgo true) full w0 k0 r0 two_out_ops1 [] = Some (w', k', r', out) /\
+    forall x, alookup beqb x (replay true pR (tree_of true pR w0) out) = alookup beqb x (tree_of true pR w').
+Proof.
+  intros full. exact (C01_from_start_x2_partial (cfgo true) full eq_refl eq_refl eq_refl two_out_ops1 w0 w0_wf eq_refl C01_two_out_ops_x12).
+Qed.
